@@ -27,7 +27,7 @@ META = {
                   'on the implementation through guarded yield points (hook H2) under a cooperative deterministic scheduler'),
     'design_ref': 'DESIGN.md section 4 C20',
     'theorems': ['C20_memo_linearizable', 'C20_memo_sequential', 'C20_protocols', 'C20_load_plain', 'C20_dump_plain',
-                 'C20_env_plain', 'C20_v1_catchall_plain', 'C20_partial', 'C20_refuted_path_fill',
+                 'C20_env_plain', 'C20_v1_catchall_plain', 'C20_partial', 'C20_refuted_path_fill', 'C20_refuted_env_inplace',
                  'C20_f31_repair_removes_witnesses', 'C20_former_witnesses_sequential', 'C20_hook_table'],
     'tables': ['ConcHooks'],
     'level_text': ('PARTIAL. Proved in Coq for ALL schedules (any number of threads, unbounded length, one scheduling point per '
@@ -41,7 +41,11 @@ META = {
                    'and without _reload) / v1-catch-all-load programs of every class WITHOUT JSON-path fields: any defaults with or '
                    'without skip_defaults, any run-time type of the dumped values. For classes with >= 2 JSON-path fields the '
                    'faithful model is REFUTED with concrete schedules (two-phase path tables, F31, open), reproduced on the '
-                   'implementation. The model describes the tree with the repairs F30, F32, F33, F34 in place.'),
+                   'implementation. The model describes the tree with the repairs F30, F32, F33, F34 in place. The EnvWizard theorems '
+                   'are about the REBIND protocol of Env.load_environ (a complete copy is built, then the global is rebound); an '
+                   'in-place refill of the shared dict is refuted in the model (C20_refuted_env_inplace), the protocol shape is '
+                   'detected from the source, and a hook-free real-thread search (reload || plain instantiation, 12 000 filler '
+                   'variables) looks for the failing run.'),
     'level_note': ('The theorem is about the micro-step model: preemption between two shared-table accesses. Not exhibited: races '
                    'inside one micro-step (between bytecodes of a dict-free statement), GIL release points inside C extensions, '
                    'free-threaded (no-GIL) builds where single dict operations are still atomic but the model rule R4 is not '
@@ -50,7 +54,9 @@ META = {
     'rule': ('scenario families x thread programs (2-3 threads, 1-2 calls each) x all schedules with <= bound preemptions at the '
              'H2 yield points (quick: bound 2, at most ~220 schedules per scenario chosen pseudo-randomly from the frontier when '
              'there are more; thorough: bound 3, up to 2000). A run is non-trivial when at least one preemption happened and two '
-             'threads both passed a yield point; distinct = distinct (scenario, schedule). Stress: real threads, switch interval 1e-6.'),
+             'threads both passed a yield point; distinct = distinct (scenario, schedule). Stress: real threads, switch interval 1e-6; '
+             'env reload stress: 4 (quick) / 8 (thorough) pristine processes x 40 / 150 reload rounds of one reloading thread against '
+             'two plain-instantiating threads with 12 000 filler variables, every call compared with the sequential outcome.'),
     'trusted_base': [
         'model rules R1-R4 of coq/model/ConcModel.v (CPython: one dict get/set/pop/len is atomic; dicts iterate in insertion '
         'order; inserting a new key makes every live iterator over the dict raise RuntimeError at its next step; threads '
@@ -416,8 +422,33 @@ def run(ctx):
     if fixes.get('F31') is None:
         ctx.broken_tie('the `set_paths` sites of class_helper.py have neither the pinned nor the repaired shape the model knows',
                        {'fixes': fixes, 'error': probe.get('fixes_error')})
-    fx = '(mkX %s)' % BOOL[bool(fixes.get('F31'))]
-    ctx.extra_cov['code_shape_detected'] = fixes
+    # REBIND vs IN-PLACE: how Env.load_environ installs the copy of os.environ (C20_env_plain is about REBIND only)
+    inplace = fixes.get('env_inplace')
+    if inplace is None:
+        ctx.broken_tie('Env.load_environ neither rebinds `environ` nor mutates it in a way the model knows', fixes)
+    elif inplace:
+        ctx.notes.append('Env.load_environ refills the shared `environ` dict IN PLACE: not memo-shaped, C20_env_plain / '
+                         'C20_partial do not cover EnvWizard calls on this tree (model: C20_refuted_env_inplace)')
+    h2b = hook_ok and {'env.names_update', 'env.cleaned_update'} <= set(probe.get('points', []))
+    fx = '(mkX %s %s %s)' % (BOOL[bool(fixes.get('F31'))], BOOL[bool(inplace)], BOOL[bool(h2b)])
+    ctx.extra_cov['code_shape_detected'] = dict(fixes, h2b=bool(h2b))
+    # hook completeness: every in-place bulk mutation of shared state must be directly preceded by a yield point
+    # (else the window it opens is invisible to the schedule exploration).  The four sites below exist in the
+    # current tree; they only ADD entries that are already there when the environment does not change (modelled
+    # in p_reload, or outside the modelled calls: secrets / dotenv); hook extension H2b gives them yield points.
+    KNOWN_SITES = {('lookups.py', 'reload', 'env_vars', 'update'), ('lookups.py', 'reload', 'cls.cleaned_to_env', 'update'),
+                   ('lookups.py', 'update_with_secret_values', 'environ', 'update'),
+                   ('lookups.py', 'update_with_dotenv', 'environ', 'update')}
+    sites = probe.get('inplace_sites')
+    if hook_ok:
+        if sites is None or any('error' in x for x in sites):
+            ctx.broken_tie('the scan for in-place mutations of shared state could not be run', sites)
+        else:
+            unguarded = [x for x in sites if (x['file'], x['function'], x['receiver'], x['op']) not in KNOWN_SITES]
+            ctx.extra_cov['inplace_sites_without_yield_point'] = sites
+            if unguarded:
+                ctx.broken_tie('hook H2 incomplete: shared state is mutated in place without a yield point at %s'
+                               % ', '.join('%s:%s `%s`' % (x['file'], x['line'], x['code']) for x in unguarded), unguarded)
 
     quick = ctx.tier == 'quick'
     bound = 2 if quick else 3
@@ -560,6 +591,34 @@ def run(ctx):
             if not ok:
                 ctx.violation('regression schedule (%s) gives an outcome of no sequential order' % what, obj)
 
+    # ---- hook-free search: reloading EnvWizard || plain EnvWizard threads, big environment -------------
+    # (a randomized real-thread search IS a failing-input search for a property over schedules; a hit is
+    #  reported with the parameters of the search as the replay input)
+    sp = {'op': 'stress_env', 'fillers': 12000, 'reloads': 40 if quick else 150, 'workers': 2,
+          'processes': 4 if quick else 8, 'parallel': 4, 'switch': 1e-6, 'max_seconds': 25 if quick else 90}
+    _t0 = _time.time()
+    sr = ctx.impl('c20', sp, timeout=900)
+    ctx.notes.append('phase env reload stress: %.1fs' % (_time.time() - _t0))
+    if 'reference_error' in sr:
+        ctx.violation('EnvWizard: the sequential reference itself is not constant / fails: %s' % json.dumps(sr)[:600],
+                      {'stress_env': sp}, no_input=True)
+    else:
+        for k, rn in enumerate(sr['runs']):
+            if 'bad' not in rn:
+                ctx.broken_tie('env reload stress process did not complete', rn)
+                continue
+            ctx.count(rn['reloads'], key='stress_env:%d' % k, nontrivial=True)   # one evaluation per reload round
+            ctx.extra_cov['stress_env_calls'] = ctx.extra_cov.get('stress_env_calls', 0) + rn['calls']
+            ctx.hist('stress_env_reload_rounds', rn['reloads'])
+            if rn['n_bad']:
+                b = rn['bad'][0]
+                ctx.violation('EnvWizard(_reload=True) in one thread || plain EnvWizard() in %d threads (%d filler variables, '
+                              'environment never changes): call %d of thread %s during reload round %d gives %s; every '
+                              'sequential order gives %s' % (sp['workers'], sp['fillers'], b['call'], b['thread'], b['round'],
+                                                             json.dumps(b['outcome']), json.dumps(sr['expected'])[:200]),
+                              {'stress_env': dict(sp, processes=4), 'first_hit': b, 'process': k})
+                break
+
     ctx.notes.append('phase witnesses done at %.1fs' % (_time.time() - ctx.t0))
     # ---- supplementary: real threads, tiny switch interval -------------------------------------------
     stress = [sc for sc in scs if sc.name in ('plain load||load', 'plain dump||load', 'hook scan cold dump||dump',
@@ -600,6 +659,18 @@ def replay(ctx, obj, quiet=False):
     """obj: {'scenario': <impl scenario>, 'schedule': [...]} or {'scenario':..., 'named': [[tid, point, occ], ...]}
     or {'scenario':..., 'stress': True}.  True iff the outcome vector is that of some sequential order."""
     env = {'MY_VAR': '42'}
+    if 'stress_env' in obj:
+        sr = ctx.impl('c20', obj['stress_env'], timeout=900)
+        if 'reference_error' in sr:
+            print('sequential reference fails:', json.dumps(sr)[:1500])
+            return False
+        hits = [rn for rn in sr['runs'] if rn.get('n_bad')]
+        print('sequential outcome of every call:', json.dumps(sr['expected'])[:400])
+        for rn in sr['runs']:
+            print('process: %s reload rounds, %s calls, %s non-sequential%s' % (
+                rn.get('reloads'), rn.get('calls'), rn.get('n_bad'),
+                (' e.g. ' + json.dumps(rn['bad'][0])) if rn.get('bad') else ''))
+        return not hits and all('bad' in rn for rn in sr['runs'])
     if 'scenario' not in obj:
         print('replay object names a broken tie, not an input: %s' % json.dumps(obj)[:1500])
         return False
